@@ -135,6 +135,30 @@ def impl_probe_check(start_f, n_f, start_o, n_o, start_h, n_h, L, S, d=None):
         return "wrong-value", dict(index=i, got=float(out[i]), want=float(f[i] + 1))
     return None, None
 
+def impl_real_gap_check(inp):
+    """real debiaser; corrected series sub-annual (gap in its days of the year), calibration series whole years"""
+    from . import realruns as R
+    rs = np.random.RandomState(inp["data_seed"])
+    name = inp["debiaser"]; n_c, n_s = inp["n_calibration"], inp["n_corrected"]
+    d = R.build(name, "tas", "years" if inp.get("years_windows") else "days", running_window_length=inp["L"], running_window_step_length=inp["S"])
+    a, b = R.series(rs, n_c), R.series(rs, n_c, "tas", 1.5)
+    c = R.series(rs, n_s, "tas", 3.0, 1.0, start=100)
+    tC, tS = R.times(n_c, inp["start_calibration"]), R.times(n_s, inp["start_corrected"])
+    try:
+        if name == "DeltaChange":   # corrects obs
+            out = R.run(d, c, a, b, tS, tC, tC)
+        else:
+            out = R.run(d, a, b, c, tC, tC, tS)
+    except Exception as e:
+        return "exception:" + type(e).__name__, dict(error=repr(e)[:300])
+    out = np.asarray(out, dtype=float)
+    if out.shape != c.shape:
+        return "shape", dict(shape=list(out.shape))
+    if not np.isfinite(out).all():
+        idx = np.where(~np.isfinite(out))[0]
+        return "undefined-value", dict(count=int(idx.size), first_indices=idx[:10].tolist())
+    return None, None
+
 # ------------------------------------------------------------------ correspondence
 def correspondence(res, tier, seed):
     m = W()
@@ -336,6 +360,27 @@ def search(res, tier, seed, deep=False):
                        dict(kind="probe-sequence", call=k, sequence=[dict(start_future=str(x[0]), n_future=x[1], start_obs=str(x[2]), n_obs=x[3]) for x in seq], L=L, S=S), det,
                        "the same debiaser applied to several series in turn: a later call does not adjust every time step of its own series")
                 break
+    # E. the REAL debiasers on a sub-annual series with a gap in the days of the year it covers (the window
+    #    centres still run over min..max day of year, so some windows have no time step to adjust and, for short
+    #    windows, an empty slice of the corrected series): a defined finite value at every time step, no exception.
+    #    The calibration series cover every day of the year (for DeltaChange the corrected series is obs).
+    from . import realruns as R
+    rs = np.random.RandomState(seed * 7 + 3)
+    for i in range(1 if not thorough else 6):
+        for name in R.ALL:
+            L, S = r.choice([(15, 5), (31, 15), (31, 31), (61, 15)])
+            if name == "ISIMIP": S = max(S, 15)
+            n_c = r.choice([1096, 1461]); n_s = r.randint(160, 280)   # crosses the turn of the year: days min..max = 1..365/366 with a gap of >= 85 days
+            start_s = "%d-%02d-%02d" % (r.randint(2030, 2060), r.randint(8, 12), r.randint(1, 28))
+            start_c = "%d-01-01" % r.choice([1981, 1985])
+            inp = dict(kind="real-gap", debiaser=name, L=L, S=S, n_calibration=n_c, n_corrected=n_s,
+                       start_corrected=start_s, start_calibration=start_c, data_seed=int(rs.randint(1 << 30)),
+                       years_windows=(name in ("CDFt", "QuantileDeltaMapping") and r.random() < 0.5))
+            bad, det = impl_real_gap_check(inp)
+            res.case(("E", name))
+            if bad:
+                report(name + ".apply_location", bad, inp, det,
+                       "real debiaser on a sub-annual corrected series whose days of the year have a gap: an exception or an undefined value")
     res.components["search"] = dict(day_span_configs=len(grid), note="exactly-once/containment/mask alignment on the implementation's window classes; probe debiaser on NaN-poisoned buffers")
 
 def replay(w):
@@ -347,6 +392,8 @@ def replay(w):
             bad, det = impl_days_check(days, inp["L"], inp["S"])
         elif comp == "RunningWindowOverYears":
             bad, det = impl_years_check(np.array(inp["years"]), inp["L"], inp["S"])
+        elif inp.get("kind") == "real-gap":
+            bad, det = impl_real_gap_check(inp)
         elif inp.get("kind") == "probe-sequence":
             p = lambda s: datetime.date.fromisoformat(s)
             d = probe_debiaser(inp["L"], inp["S"]); bad = det = None
